@@ -506,4 +506,3 @@ func (w *World) SystemReset(resources, access []string) {
 	b, _ := json.Marshal(p)
 	w.Bus.Event("system.reset", b, nil)
 }
-
